@@ -71,6 +71,8 @@ ORSWOT_REWRITES = [
     (r"^use std::collections::\{BTreeMap, HashMap, HashSet\};$",
      "use crate::vcoll::{BTreeMap, HashMap, HashSet, Vec};\nuse crate::vcoll_vec as vec;", 1),
     (r"pub fn as_bytes\(&self\) -> Result<Vec<u8>, BadState>", "pub fn as_bytes(&self) -> Result<std::vec::Vec<u8>, BadState>", 1),
+    # the crate's own unit tests (only compiled for the native encoder validation): an explicit macro import wins over the glob
+    (r"^mod tests \{\n", "mod tests {\n    #[allow(unused_imports)]\n    use crate::vcoll_vec as vec;\n", 1),
 ]
 
 VCOLL_CFG = """// generated per run: container bounds of this encoding
@@ -112,3 +114,39 @@ def build_crdt_vcoll(ws, mode, harness_files, keys, nodes, vcap=None, name="crdt
                              append=[os.path.join(ENC, h) for h in harness_files],
                              subst={"@@UNWIND@@": unwind}))
     return d, mounted, {"KEYS": keys, "NODES": nodes, "DOM": dom, "VCAP": vcap, "unwind": unwind}
+
+
+def validate_vcoll(ws, logs_dir, seed=0):
+    """Encoder validation (not the deciding step): (1) the repository's own orswot/timestamp unit tests are compiled against the
+    container models and run natively; they must pass exactly as they do on std. (2) a native differential test drives the
+    models and std::collections with the same random call sequences."""
+    import shutil
+    sub = dcv.Scratch.__new__(dcv.Scratch)
+    sub.root = ws.path("validate")
+    sub.keep = True
+    os.makedirs(sub.root, exist_ok=True)
+    d, _, _ = build_crdt_vcoll(sub, "solve", [], keys=8, nodes=8, vcap=16, name="crdt_validate")
+    with open(os.path.join(d, "src/vcoll.rs"), "a") as f:
+        f.write(open(os.path.join(ENC, "vcoll_difftest.rs")).read())
+    env = dict(dcv.ENV)
+    env["CARGO_TARGET_DIR"] = os.path.join(sub.root, "target_validate")
+    env["VERIF_SEED"] = str(seed)
+    rc, out, to = dcv.run_cmd(["cargo", "test", "--offline", "--lib"], d, 900, log_path=os.path.join(logs_dir, "validate_vcoll.log"), env=env)
+    import re
+    m = re.search(r"test result: (\w+)\. (\d+) passed; (\d+) failed", out)
+    ok = bool(m) and m.group(1) == "ok" and int(m.group(3)) == 0 and rc == 0 and not to
+    passed = int(m.group(2)) if m else 0
+    # the same unit tests on the untouched crate, for the count comparison
+    d2, _ = build_crdt_timestamp_only(sub, "solve", [], name="crdt_std")
+    rc2, out2, to2 = dcv.run_cmd(["cargo", "test", "--offline", "--lib"], d2, 900, log_path=os.path.join(logs_dir, "validate_std.log"), env=env)
+    m2 = re.search(r"test result: (\w+)\. (\d+) passed; (\d+) failed", out2)
+    passed_std = int(m2.group(2)) if m2 else -1
+    shutil.rmtree(sub.root, ignore_errors=True)
+    detail = "repo unit tests through vcoll: %d passed (std build: %d passed) + 3 differential tests" % (passed - 3, passed_std)
+    if ok and passed - 3 != passed_std:
+        ok = False
+        detail += " -- COUNT MISMATCH"
+    if not ok:
+        tail = [l for l in out.strip().split("\n") if l.strip()][-10:]
+        detail += " | " + " | ".join(tail)[:1200]
+    return [{"name": "vcoll_vs_std", "ok": ok, "tests_passed": passed if ok else 0, "detail": detail}]
